@@ -5,6 +5,7 @@
 import Vise.Lemmas.VmMonad
 import Vise.Lemmas.Flags
 import Vise.Engine
+import Vise.Lemmas.EngKeeps
 
 namespace Vise.C20
 open Vise EM
@@ -176,5 +177,86 @@ example :
     let st : St := { (St.new 2) with execPath := [[0x72], [0x61]], flags := (St.new 2).flags.set 8 true }
     FlagsOk st ∧ st.execPath ≠ [] ∧ st.getFlag 8 = .ok true := by
   refine ⟨by unfold FlagsOk; decide, by decide, by decide⟩
+
+/-! ### the remembered last value (the exit value) is delivered once -/
+
+/-- **The exit value is taken, not copied**: at a graceful end the cache's remembered last value is cleared when it
+becomes the exit value (`cache.Last()`), so it cannot be delivered again by a later end under the same session id. -/
+theorem graceful_end_takes_last (e : Eng) (hd : e.vm.st.getFlag Facts.dirtyFlag = .ok true) :
+    (setCode [] e).2.vm.ca.lastValue = [] ∧ (setCode [] e).2.vm.ca.frames = e.vm.ca.frames := by
+  unfold setCode
+  simp [St.setCode, matchFlagM, getFlagM, St.getFlag, Cache.last] at *
+  simp [hd, Sized.empty]
+
+/-- the cache's remembered last value is not changed -/
+def ELast (e e' : Eng) : Prop := e'.vm.ca.lastValue = e.vm.ca.lastValue
+
+theorem eLast_pre : EPre ELast := ⟨fun _ => rfl, fun _ _ _ h1 h2 => h2.trans h1⟩
+
+theorem EKeeps.vm_last {α} {x : VM α} (h : Keeps SameCache x) : EKeeps ELast (EM.vm x) := by
+  intro e
+  simp only [EM.vm_apply, ELast]
+  rw [h e.vm]
+
+theorem pop_last (ca : Cache Bytes) : ca.pop.1.lastValue = ca.lastValue := by
+  unfold Cache.pop
+  split <;> rfl
+
+theorem resetTail_last : EKeeps ELast (do
+    let _ ← vm (resetFlagM Facts.terminateFlag)
+    let _ ← vm (resetFlagM Facts.dirtyFlag)
+    pure () : EM Unit) := by
+  have P := eLast_pre
+  apply EKeeps.bind P (EKeeps.vm_last (flagOps_sameCache _).2.1); intro _
+  apply EKeeps.bind P (EKeeps.vm_last (flagOps_sameCache _).2.1); intro _
+  exact EKeeps.pure P _
+
+/-- unwinding (Up and Pop per level, Restart, flag resets) never touches the remembered last value -/
+theorem engReset_last (fuel : Nat) : EKeeps ELast (engReset fuel) := by
+  have P := eLast_pre
+  induction fuel with
+  | zero => unfold engReset; exact EKeeps.pure P _
+  | succ fuel ih =>
+    apply EKeeps.of_at; intro e
+    unfold engReset
+    apply EKeepsAt.get_bind P
+    split
+    · exact EKeepsAt.fail P _ _ _
+    · exact EKeepsAt.raw P _ _
+    · next isTop _ =>
+      dsimp only
+      have hjp : ∀ e', EKeepsAt ELast (if isTop = true then (do
+            let e ← EM.get
+            match e.vm.st.restart with
+              | .ok st' => do
+                EM.modify fun e => { e with vm := { e.vm with st := st' } }
+                let _ ← vm (resetFlagM Facts.terminateFlag)
+                let _ ← vm (resetFlagM Facts.dirtyFlag)
+                pure ()
+              | _ => do
+                let _ ← vm (resetFlagM Facts.terminateFlag)
+                let _ ← vm (resetFlagM Facts.dirtyFlag)
+                pure () : EM Unit)
+          else engReset fuel) e' := by
+        intro e'
+        split
+        · apply EKeepsAt.get_bind P
+          split
+          · apply EKeepsAt.bind P (EKeepsAt.modify _ _ (by exact rfl)); intro _ e2 _
+            exact resetTail_last e2
+          · exact resetTail_last e'
+        · exact ih e'
+      split
+      · apply EKeepsAt.bind P
+        · exact EKeepsAt.modify _ _ (by simp only [ELast]; exact pop_last e.vm.ca)
+        · intro _ e' _; exact hjp e'
+      · apply EKeepsAt.bind P (EKeepsAt.fail P _ _ _); intro _ e' _; exact hjp e'
+
+/-- the Flush that ends the session stores the cache with whatever last value the render left: the unwinding adds none -/
+theorem flush_end_last (env : Env) (cfg : Cfg) (e : Eng) (hx : e.execd = true) (hex : e.exiting = true)
+    (out : Bytes) (hok : (flush env cfg e).1 = .ok out) :
+    (flush env cfg e).2.vm.ca.lastValue = (afterRender env cfg e).vm.ca.lastValue := by
+  rw [flush_state env cfg e hx hex out hok]
+  exact engReset_last _ (afterRender env cfg e)
 
 end Vise.C20
